@@ -288,7 +288,8 @@ impl World {
     pub async fn ask(&self, text: &str) -> Value {
         let r = self.run(text, false).await;
         if r.class == "parse_error" {
-            return json!({"parse_error": r.error_code});
+            // the message quotes the rest of the text, which differs between a query and its AS OF form
+            return json!({"parse_error": r.error_code.split(':').next().unwrap_or("")});
         }
         let results = r.raw.get("results").cloned().unwrap_or(Value::Null);
         let results = match results {
